@@ -391,8 +391,15 @@ func (h *cgH) phase() string {
 // clearlyAppLimited: the region where the property's "actually window-limited" is
 // beyond doubt false: less than half the window in use and more than one burst of
 // room left (the sender counts "within one burst of the window" as limited).
-func (h *cgH) clearlyAppLimited(inFlight, cwnd protocol.ByteCount) bool {
-	return inFlight < cwnd/2 && cwnd-inFlight > maxBurstPackets*h.mds
+//
+// Outside slow start only the second half of that applies: once the window grows by one packet per round trip, a sender
+// that leaves more than a burst of it unused is not limited by it, however much of it is in use (the half-window rule is
+// slow start's allowance for a window that doubles within the round trip).
+func (h *cgH) clearlyAppLimited(inFlight, cwnd protocol.ByteCount, phase string) bool {
+	if cwnd-inFlight <= maxBurstPackets*h.mds || inFlight > cwnd {
+		return false
+	}
+	return inFlight < cwnd/2 || phase == "congestion-avoidance"
 }
 
 // observe runs the state oracles; called after every event.
@@ -634,7 +641,7 @@ func (h *cgH) lossEvent(p *cgPkt, prior protocol.ByteCount) {
 		h.res.Shape("L-" + ph)
 	case after > before:
 		// (4) growth only while window-limited
-		if h.clearlyAppLimited(prior, before) {
+		if h.clearlyAppLimited(prior, before, h.phase()) {
 			h.fail("cwnd grew on a loss while the sender was not window-limited"+h.mode, "prior in flight=%d cwnd %d -> %d", prior, before, after)
 		}
 		h.res.Shape("L+")
@@ -700,7 +707,7 @@ func (h *cgH) ackFrame(acked []*cgPkt, lostFn func() []*cgPkt, sample, ackDelay 
 		h.s.OnPacketAcked(p.pn, p.size, prior, now)
 		h.res.Events++
 		after := h.cwnd()
-		limited := !h.clearlyAppLimited(prior, before)
+		limited := !h.clearlyAppLimited(prior, before, ph)
 		if h.res.KeepLog {
 			h.res.Logf("acked pn=%d size=%d prior=%d cwnd %d -> %d (%s) srtt=%v minRTT=%v", p.pn, p.size, prior, before, after, ph, h.rtt.SmoothedRTT(), h.rtt.MinRTT())
 		}
